@@ -254,6 +254,16 @@ class Check:
             raise MachineryError("sensitivity run %s/%s: expected %s to be refuted (%s) but it was not" % (res.module, res.cfg, inv, what))
         return res
 
+    def require(self, cond, msg):
+        """vacuity / coverage requirement of the machinery: exit 2 when it fails on a run without violations;
+        on a run that already found violations (misbehaving code) it is only noted."""
+        if cond:
+            return True
+        if self.violations or self.known:
+            self.note("requirement not met (violations were found before): " + msg)
+            return False
+        raise MachineryError(msg)
+
     def stage(self, name):
         now = time.time()
         print("[%s %6.1fs] %s" % (self.prop, now - self.t0, name), flush=True)
